@@ -72,19 +72,27 @@ type dictObs struct {
 // watchDicts installs the Dict hooks; the returned function removes them and returns the observations.
 func watchDicts() func() []dictObs {
 	var obs []dictObs
+	lastText := ""
 	jen.VerifHookObj = func(point string, _ *jen.File, a, k interface{}) {
+		ptr := reflect.ValueOf(a).Pointer()
 		switch point {
 		case "dict":
-			obs = append(obs, dictObs{ptr: reflect.ValueOf(a).Pointer()})
+			obs = append(obs, dictObs{ptr: ptr})
 		case "dictkey":
-			if len(obs) > 0 {
-				obs[len(obs)-1].keys = append(obs[len(obs)-1].keys, k)
+			// a key may itself contain a Dict that was rendered in between: attribute the key to the innermost open
+			// observation of ITS dict, not to the last one
+			for i := len(obs) - 1; i >= 0; i-- {
+				if obs[i].ptr == ptr {
+					obs[i].keys = append(obs[i].keys, k)
+					obs[i].texts = append(obs[i].texts, lastText)
+					break
+				}
 			}
 		}
 	}
 	jen.VerifHook = func(point string, _ *jen.File, arg string) {
-		if point == "dictkey" && len(obs) > 0 {
-			obs[len(obs)-1].texts = append(obs[len(obs)-1].texts, arg)
+		if point == "dictkey" {
+			lastText = arg // the text hook fires immediately before the object hook of the same key
 		}
 	}
 	return func() []dictObs {
@@ -221,8 +229,8 @@ func runC13(tw *TraceWriter, id int, c *Case) {
 }
 
 // dict key / value expectations of the MC_Render dict universe, with package qualifiers normalised to paths
-var keyText = map[string]string{"a": "a", "ab": "ab", "a1": "a1", "10": "10", "9": "9", "1": "1", "f1": "f()", "f2": "f()", "qx": "x/d.K", "qy": "y/d.K"}
-var keyNo = map[string]string{"a": "710", "ab": "711", "a1": "718", "10": "719", "9": "720", "1": "712", "f1": "713", "f2": "714", "qx": "715", "qy": "716", "null": "717"}
+var keyText = map[string]string{"a": "a", "ab": "ab", "a1": "a1", "10": "10", "9": "9", "1": "1", "f1": "f()", "f2": "f()", "qx": "x/d.K", "qy": "y/d.K", "sk1": "Circle{R: 1}", "sk2": "Square{A: 2}"}
+var keyNo = map[string]string{"a": "710", "ab": "711", "a1": "718", "10": "719", "9": "720", "1": "712", "f1": "713", "f2": "714", "qx": "715", "qy": "716", "null": "717", "sk1": "721", "sk2": "722"}
 
 func expectedPairs(c *Case) []string {
 	out := []string{}
@@ -233,6 +241,9 @@ func expectedPairs(c *Case) []string {
 		v := keyNo[p[0]]
 		if p[1] == "vq" {
 			v = "x/d.V" + v
+		}
+		if p[1] == "vs" {
+			v = "\"http://e.com/*" + v + "*/,}:{\""
 		}
 		out = append(out, keyText[p[0]]+" : "+v)
 	}
@@ -310,8 +321,8 @@ func runC16(tw *TraceWriter, id int, c *Case, repeats int) {
 	rv, obs := renderBodyWith(body, true, b, setup)
 	fv, _ := renderBodyWith(body, false, nil, setup)
 	order1 := []int{}
-	if os := fixupDicts(b, obs); len(os) == 1 {
-		order1 = os[0]
+	if os := fixupDicts(b, obs); len(os) >= 1 {
+		order1 = os[0] // the outer Dict is entered first (keys that contain a Dict add observations of their own)
 	}
 	otree := c.Tree
 	pairs, keys, multiline, parsed := dictProjection(fv.out)
